@@ -2105,8 +2105,14 @@ class PGPKey(Armorable, ParentRef, PGPObject):
                 sig._signature.subpackets.addnew('IntendedRecipient', hashed=True, version=4,
                                                  intended_recipient=intended_recipient.fingerprint)
             elif isinstance(intended_recipient, Fingerprint):
-                # FIXME: what if it's not a v4 fingerprint?
-                sig._signature.subpackets.addnew('IntendedRecipient', hashed=True, version=4,
+                # the subpacket is "key version, fingerprint", and a reader takes the length of the fingerprint from
+                # the version: 20 octets for a version 4 key, 32 for version 5.  Anything else cannot be written so
+                # that it can be read back
+                version = {40: 4, 64: 5}.get(len(intended_recipient))
+                if version is None:
+                    raise ValueError("Intended Recipient: expected a fingerprint of 20 or 32 octets, got {:d} hex digits"
+                                     "".format(len(intended_recipient)))
+                sig._signature.subpackets.addnew('IntendedRecipient', hashed=True, version=version,
                                                  intended_recipient=intended_recipient)
             else:
                 warnings.warn("Intended Recipient is not a PGPKey, ignoring")
